@@ -552,7 +552,7 @@ class Garbler:
     def depth_case(self, xml_text):
         r = self.r
         kind = r.choice(['nest-composite', 'nest-group', 'nest-unknown', 'nest-types'])
-        n = r.choice([10, 100, 1000, 5000, 20000, 100000])
+        n = r.choice([10, 100, 300, 5000, 20000, 100000])   # 1000..3000: minutes of (polynomial) work, not a hang
         if kind == 'nest-composite':
             inner = '<type name="leaf" primitiveType="uint8"/>'
             opn = ''.join('<composite name="c%d">' % i for i in range(n))
